@@ -1242,7 +1242,8 @@ impl Harness for WsSys {
                         let both = col.final_scrape.iter().filter(|(_, f)| f.get(&t).copied().unwrap_or((0, 0)) == (want.0 + other.0, want.1 + other.1)).count() == 2;
                         let merged = both && other != (0, 0) && want != (0, 0) && !uncertain.contains(&(!*obs_v6, t)) && !raced.contains(&key) && !raced.contains(&(!*obs_v6, t));
                         let sig = if merged { "address-families-share-a-swarm" } else { sig };
-                        let props: &[&str] = if merged { &["C17", "C03"] } else if sig != "entry-of-open-connection-missing" { &["C17"] } else { &["C17", "C08"] };
+                        // (C08: closing a connection removes exactly the entries that connection created)
+                        let props: &[&str] = if merged { &["C17", "C03"] } else { &["C17", "C08"] };
                         for p in props {
                             violations.push(Violation::new(p, "closed-connections-leave-no-peers", sig, format!("at quiescence torrent {} ({}) scrapes complete/incomplete {}/{} but the connections still open hold {}/{} ({} socket x {} swarm workers)", t, if *obs_v6 { "IPv6" } else { "IPv4" }, got.0, got.1, want.0, want.1, scn.socket_workers, scn.swarm_workers)));
                         }
@@ -1251,6 +1252,13 @@ impl Harness for WsSys {
             }
         }
         let nontrivial = n_replies >= 3;
+        // relaying rules are C09's as much as C17's (to the addressed peer's own connection, never to the sender, same family)
+        let also: Vec<Violation> = violations
+            .iter()
+            .filter(|v| v.prop == "C17" && (v.check == "offer-routing" || v.check == "answer-routing"))
+            .map(|v| Violation::new("C09", &v.check, &v.signature, v.detail.clone()))
+            .collect();
+        violations.extend(also);
         Outcome { violations, fingerprint: fp, signature: if nontrivial { Some(report.sig_hash) } else { None } }
     }
 
